@@ -417,6 +417,7 @@ def run(ctx):
             ctx.agree("emitted instruction list (real generator vs Gen)", p, i, m)
     # (b) the property oracle on the real emitted code
     ocount = 0
+    accepted.sort(key=lambda a: len(a[3]))       # small programs first: the first stored failure is a small one
     for fam, p, built, res in accepted:
         if "special-m" in fam or any("m" == o for st in p["stmts"] for o in dsl.ops_of(st[2])):
             ctx.stats["oracle:skipped-computed-address"] += 1
